@@ -170,6 +170,10 @@ Examples:
 			searchRecovery := recovery.NewSearchRecovery()
 			recoveredResults, recoveryErr := searchRecovery.RecoverFromSearchFailure(query, nil, db)
 			if recoveryErr == nil && len(recoveredResults) > 0 {
+				// Recovery strategies scan the whole database; keep to the limit in force
+				if len(recoveredResults) > searchOptions.Limit {
+					recoveredResults = recoveredResults[:searchOptions.Limit]
+				}
 				results = recoveredResults
 			}
 		}
